@@ -9,28 +9,33 @@ MAP = {
  "C12": ["C12", "C11", "C13", "C10"], "C13": ["C13", "C11", "C09", "C07", "C18"], "C14": ["C14", "C13", "C12", "C17", "C10"], "C15": ["C15", "C03", "C17", "C08"], "C16": ["C16", "C02"],
  "C17": ["C17", "C03", "C04"], "C18": ["C18", "C01", "C13", "C19"], "C19": ["C19"],
 }
-out_dir = os.environ.get("MATRIXDIR", "/root/scratch/matrix")
-MUTROOT = os.environ.get("MUTROOT", "/tmp/mut")
-os.makedirs(out_dir, exist_ok=True)
-only = sys.argv[1:]
-for c in sorted(MAP):
-    for n in (1, 2):
-        d = "%s/%s/out/%d" % (MUTROOT, c, n)
-        patch = os.path.join(d, "patch.ported.diff") if os.path.exists(os.path.join(d, "patch.ported.diff")) else os.path.join(d, "patch.diff")
-        if not os.path.exists(patch) or (only and "%s-%d" % (c, n) not in only):
-            continue
-        res = {"mutant": "%s-%d" % (c, n), "checks": {}}
-        if subprocess.run(["git", "-C", "/repo", "status", "--porcelain", "--untracked-files=no"], capture_output=True, text=True).stdout.strip():
-            print("repo dirty"); sys.exit(2)
-        if subprocess.run(["git", "-C", "/repo", "apply", patch]).returncode != 0:
-            res["error"] = "patch does not apply"
-        else:
-            try:
-                for chk in MAP[c]:
-                    p = subprocess.run(["/verif/vcheck", chk, "--tier", "quick"], capture_output=True, text=True)
-                    sigs = [l.strip()[len("signature: "):] for l in p.stdout.splitlines() if l.strip().startswith("signature:")]
-                    res["checks"][chk] = {"exit": p.returncode, "violations": len(sigs), "first_signatures": sigs[:3]}
-            finally:
-                subprocess.run(["git", "-C", "/repo", "checkout", "--", "."])
-        json.dump(res, open(os.path.join(out_dir, res["mutant"] + ".json"), "w"), indent=1)
-        print(res["mutant"], {k: (v["exit"], v["violations"]) for k, v in res["checks"].items()}, flush=True)
+def main():
+    out_dir = os.environ.get("MATRIXDIR", "/root/scratch/matrix")
+    MUTROOT = os.environ.get("MUTROOT", "/tmp/mut")
+    os.makedirs(out_dir, exist_ok=True)
+    only = sys.argv[1:]
+    for c in sorted(MAP):
+        for n in (1, 2):
+            d = "%s/%s/out/%d" % (MUTROOT, c, n)
+            patch = os.path.join(d, "patch.ported.diff") if os.path.exists(os.path.join(d, "patch.ported.diff")) else os.path.join(d, "patch.diff")
+            if not os.path.exists(patch) or (only and "%s-%d" % (c, n) not in only):
+                continue
+            res = {"mutant": "%s-%d" % (c, n), "checks": {}}
+            if subprocess.run(["git", "-C", "/repo", "status", "--porcelain", "--untracked-files=no"], capture_output=True, text=True).stdout.strip():
+                print("repo dirty"); sys.exit(2)
+            if subprocess.run(["git", "-C", "/repo", "apply", patch]).returncode != 0:
+                res["error"] = "patch does not apply"
+            else:
+                try:
+                    for chk in MAP[c]:
+                        p = subprocess.run(["/verif/vcheck", chk, "--tier", "quick"], capture_output=True, text=True)
+                        sigs = [l.strip()[len("signature: "):] for l in p.stdout.splitlines() if l.strip().startswith("signature:")]
+                        res["checks"][chk] = {"exit": p.returncode, "violations": len(sigs), "first_signatures": sigs[:3]}
+                finally:
+                    subprocess.run(["git", "-C", "/repo", "checkout", "--", "."])
+            json.dump(res, open(os.path.join(out_dir, res["mutant"] + ".json"), "w"), indent=1)
+            print(res["mutant"], {k: (v["exit"], v["violations"]) for k, v in res["checks"].items()}, flush=True)
+
+
+if __name__ == "__main__":
+    main()
